@@ -698,6 +698,7 @@ def shrink(trace, prop, clause):
 
 
 def chunk(payload):
+    core.TIER = payload.get('tier', 'quick')
     prop, seeds, quarantine = payload['prop'], payload['seeds'], payload['quarantine']
     agg = core.Agg()
     for seed in seeds:
